@@ -17,3 +17,9 @@ def run(chk):
     core_rules.update_after_liquidation(chk, "C01")
     core_rules.security_setup_rules(chk, "C01")
     backtest_rules.run_loop(chk, "C01")
+    # the position rows a strategy reports are the per-name sums of its securities' recorded position rows
+    from .algo_equiv import check_equiv
+    from .c18 import REFS as REPORT_REFS
+    for mod, cls, name, src, what in REPORT_REFS:
+        if (cls, name) == ("StrategyBase", "positions"):
+            check_equiv(chk, "C18.R1", mod, cls, name, src, "report-formula", "%s.%s: %s" % (cls, name, what), no_inline=("update", "get_transactions"), limit=14)
